@@ -5,6 +5,7 @@ package main
 // three-state machine (no-hi, hi, authenticated(user, level)).
 
 import (
+	"encoding/json"
 	"sort"
 	"encoding/base64"
 	"fmt"
@@ -38,6 +39,9 @@ var vfC11Ops = []vfC11Op{
 	{"note(me read)", "note", "me"}, {"note(grp kp)", "note", "grp"},
 	{"login(token from the last reply)", "login", "tok-last"}, {"login(basic carol needs validation)", "login", "basic-carol"},
 	{"login(basic erin, record expired)", "login", "basic-erin-expired"},
+	{"login(external authenticator: alice, state ok)", "login", "ext-alice-ok"},
+	{"login(external authenticator reports alice suspended)", "login", "ext-alice-susp"},
+	{"login(external authenticator reports alice deleted)", "login", "ext-alice-del"},
 	{"login(basic carol + response for an unknown credential method)", "login", "basic-carol-bogus"},
 	{"login(basic carol + wrong e-mail response)", "login", "basic-carol-wrongresp"},
 	{"acc(change carol's password)", "admin", "acc-other-auth"}, {"acc(suspend own account)", "admin", "acc-self-susp"},
@@ -151,6 +155,8 @@ func (x *vfC11World) request(op vfC11Op) string {
 			return fmt.Sprintf(`{"login":{"id":"$ID","scheme":"basic","secret":"%s"}}`, vfB64([]byte("ALICE:alice123")))
 		case "bogus":
 			return `{"login":{"id":"$ID","scheme":"bogus","secret":"QUJD"}}`
+		case "ext-alice-ok", "ext-alice-susp", "ext-alice-del":
+			return fmt.Sprintf(`{"login":{"id":"$ID","scheme":"vfext","secret":"%s"}}`, vfB64([]byte(x.users["alice"].uid.String()+":"+strings.TrimPrefix(op.Arg, "ext-alice-"))))
 		case "basic-carol":
 			return fmt.Sprintf(`{"login":{"id":"$ID","scheme":"basic","secret":"%s"}}`, vfB64([]byte("carol:carol123")))
 		case "basic-erin-expired":
@@ -295,7 +301,7 @@ func vfC11Exec(hist []int, last bool) vfXResult {
 				}
 			}
 		case "login":
-			success := map[string]string{"basic-ok": "alice", "basic-upper": "alice", "tok-alice": "alice", "tok-rita": "rita"}
+			success := map[string]string{"basic-ok": "alice", "basic-upper": "alice", "tok-alice": "alice", "tok-rita": "rita", "ext-alice-ok": "alice"}
 			lvl := map[string]auth.Level{"alice": auth.LevelAuth, "rita": auth.LevelRoot}
 			switch {
 			case !m.Hi:
@@ -540,3 +546,40 @@ func init() {
 }
 
 func TestVerifC11Session(t *testing.T) { vfXSearch(t, "C11", "session", "c11") }
+
+// vfExtAuth stands for an authenticator which knows the state of the account itself (as the bundled
+// REST authenticator does): Authenticate returns the record with State filled in, and the session
+// must honour it. Secret = "<uid>:<ok|susp|del>".
+type vfExtAuth struct{}
+
+func (vfExtAuth) Init(json.RawMessage, string) error { return nil }
+func (vfExtAuth) IsInitialized() bool                { return true }
+func (vfExtAuth) AddRecord(*auth.Rec, []byte, string) (*auth.Rec, error) {
+	return nil, types.ErrUnsupported
+}
+func (vfExtAuth) UpdateRecord(*auth.Rec, []byte, string) (*auth.Rec, error) {
+	return nil, types.ErrUnsupported
+}
+func (vfExtAuth) Authenticate(secret []byte, _ string) (*auth.Rec, []byte, error) {
+	parts := strings.SplitN(string(secret), ":", 2)
+	if len(parts) != 2 {
+		return nil, nil, types.ErrMalformed
+	}
+	uid := types.ParseUid(parts[0])
+	if uid.IsZero() {
+		return nil, nil, types.ErrFailed
+	}
+	st := map[string]types.ObjState{"ok": types.StateOK, "susp": types.StateSuspended, "del": types.StateDeleted}[parts[1]]
+	return &auth.Rec{Uid: uid, AuthLevel: auth.LevelAuth, Features: auth.FeatureValidated, State: st}, nil, nil
+}
+func (vfExtAuth) AsTag(string) string                  { return "" }
+func (vfExtAuth) IsUnique([]byte, string) (bool, error) { return false, types.ErrUnsupported }
+func (vfExtAuth) GenSecret(*auth.Rec) ([]byte, time.Time, error) {
+	return nil, time.Time{}, types.ErrUnsupported
+}
+func (vfExtAuth) DelRecords(types.Uid) error          { return nil }
+func (vfExtAuth) RestrictedTags() ([]string, error)   { return nil, nil }
+func (vfExtAuth) GetResetParams(types.Uid) (map[string]interface{}, error) { return nil, nil }
+func (vfExtAuth) GetRealName() string                 { return "vfext" }
+
+func init() { store.RegisterAuthScheme("vfext", vfExtAuth{}) }
